@@ -33,6 +33,27 @@ def objective_cols(mset):
     return ["energy", "latency"]
 
 
+def leaky_worlds(ck, n, start):
+    """Leak energy that decides tile shapes: DRAM is expensive and fast, the GLB is cheap, slow and leaky.  The tile shape
+    with the least dynamic energy (least DRAM traffic) is then not the one with the least total energy (least GLB time)."""
+    import random
+    rng = random.Random(ck.seed * 41 + start)
+    out = []
+    for i in range(n):
+        w = mc.gen_microspec(rng, start + i, n_mem=3, kind="matmul", bounds=[[4, 4, 2], [8, 2, 2], [4, 2, 4]][i % 3])
+        mems = sorted(w["level"], key=lambda c: w["level"][c])
+        for c, (e, tp, leak) in zip(mems, ((16, [1, 0], 0), (1, [1, 1], rng.choice([32, 64])), (1, [1, 0], 0))):
+            for a in w["cost"][c]["energy"]:
+                w["cost"][c]["energy"][a] = e
+                w["cost"][c]["tput"][a] = tp
+            w["cost"][c]["leak"] = leak
+            if w["level"][c]:
+                w["keep"][c] = []
+                w["maykeep"][c] = list(w["tensors"])
+        out.append(w)
+    return out
+
+
 def run(ck: Check):
     thorough = ck.tier == "thorough"
     ck.rule = ("micro-specs (1 Einsum, 2-3 memories, finite and infinite inner sizes, keep/may_keep); every template of "
@@ -52,14 +73,8 @@ def run(ck: Check):
     cases, meta = [], {}
     for mi, mset in enumerate(MSETS):
         worlds = c07.worlds_for(ck, nworlds, 100 + 20 * mi)
-        for wi, w in enumerate(worlds):
-            if wi % 2 == 0:
-                # leak energy that matters: a leaky component and finite bandwidth, so that the tile shape with the least
-                # dynamic energy is not always the one with the least total energy
-                mems = sorted(w["level"], key=lambda c: w["level"][c])
-                w["cost"][mems[-1]]["leak"] = 16 if wi % 4 == 0 else 64
-                for a in w["cost"][mems[0]]["tput"]:
-                    w["cost"][mems[0]]["tput"][a] = [1, 1]
+        if mi in (0, 2):
+            worlds = worlds[:-1] + leaky_worlds(ck, 1 if not thorough else 3, 190 + 20 * mi)
         if mi % 2:
             for w in worlds:
                 for c in w["size"]:
